@@ -28,9 +28,21 @@ def containers(x, acc):
         for v in (x.values() if isinstance(x, dict) else x): containers(v, acc)
     return acc
 
-def check_case(spec, inst, mo, rnd, res=None):
+def check_case(spec, inst, mo, rnd, res=None, broken_first='draw'):
     from maltoolbox.language import LanguageGraph, LanguageClassesFactory
     from maltoolbox.attackgraph import AttackGraph
+    if broken_first == 'draw':
+        broken_first = [rnd.randrange(len(spec['assets'])), rnd.random() < 0.7] if (rnd.random() < 0.4 and spec['assets']) else None
+    if broken_first:
+        # a failed construction first: a broken copy of the specification (one asset without its attack steps, or
+        # with an unknown super asset) makes the resolver raise half-way through a fold; whatever that call left
+        # behind (on the class, in a default argument, in a module) must not change any later answer
+        broken = copy.deepcopy(spec)
+        victim = broken['assets'][broken_first[0]]
+        if broken_first[1]: victim.pop('attackSteps', None)
+        else: victim['superAsset'] = 'NoSuchAsset'
+        try: LanguageGraph(broken)
+        except Exception: pass
     try:
         lg = LanguageGraph(copy.deepcopy(spec))
     except Exception as e:
@@ -87,7 +99,7 @@ def check_case(spec, inst, mo, rnd, res=None):
         if not probs and lg._lang_spec != snapshot: probs.append('language specification modified by graph generation')
     if probs:
         return Violation(what=probs[0], fingerprint='C03:' + probs[0].split(' (')[0][:60].replace(next((t for t in types if f' {t} ' in probs[0]), '#'), 'T'),
-                         replay={'spec': spec, 'inst': inst, 'problems': probs})
+                         replay={'spec': spec, 'inst': inst, 'problems': probs, 'broken_first': broken_first})
     if mo is not None:
         got = {t: m for t, m in zip(types, mo)}
         for t in types:
@@ -140,6 +152,6 @@ def run(seed, tier, lean) -> Result:
 
 def replay(path):
     r = json.load(open(path))
-    v = check_case(r['spec'], r.get('inst') or {'assets': [], 'links': []}, None, random.Random(0))
+    v = check_case(r['spec'], r.get('inst') or {'assets': [], 'links': []}, None, random.Random(0), broken_first=r.get('broken_first'))
     print(v.what if v else 'no violation'); print('VIOLATION reproduced' if v else 'not reproduced')
     return 1 if v else 0
